@@ -46,6 +46,7 @@ fn run_long_haul(c: &LongHaul) -> CaseResult {
         links: [LinkCfg { latency_us: c.latency_us.min(20_000), fates: vec![] }, LinkCfg { latency_us: c.latency_us.min(20_000), fates: vec![] }],
         ticks: vec![],
         tail: None,
+        premature_acks: Vec::new(),
     };
     let mut sim = SimPair::new(&sc);
     sim.record_stats = false;
